@@ -130,8 +130,17 @@ func (q *Queue) Dequeue() any {
 }
 
 // Length returns the number of items in the queue.
+//
+// The counter is adjusted after a node has been linked or unlinked, so with
+// concurrent consumers a Dequeue can decrement it before the matching Enqueue
+// has incremented it. A transiently negative counter is reported as 0 rather
+// than wrapping around to a huge unsigned value.
 func (q *Queue) Length() uint64 {
-	return uint64(atomic.LoadInt64(&q.len))
+	n := atomic.LoadInt64(&q.len)
+	if n < 0 {
+		return 0
+	}
+	return uint64(n)
 }
 
 // IsEmpty returns true when the queue is empty
